@@ -92,7 +92,7 @@ type cellState struct {
 }
 
 // foldStream is an independent fold of a report stream into "last operation per address".
-func foldStream(state []cellState, reports []g.Report, m int, lengths []int) {
+func foldStream(state []cellState, reports []g.Report, m int, lengths []int, reads bool) {
 	for _, r := range reports {
 		a := int(r.Address) % m
 		switch r.Type {
@@ -116,6 +116,10 @@ func foldStream(state []cellState, reports []g.Report, m int, lengths []int) {
 			state[a] = cellState{g.CoreIncremented, r.WarriorIndex}
 		case g.WarriorDecrement:
 			state[a] = cellState{g.CoreDecremented, r.WarriorIndex}
+		case g.WarriorRead:
+			if reads {
+				state[a] = cellState{g.CoreRead, r.WarriorIndex}
+			}
 		}
 	}
 }
@@ -166,6 +170,9 @@ func runC15(c *Ctx) {
 		var ws []g.Warrior
 		var rec *g.StateRecorder
 		var err error
+		twin, twinLate := r.Chance(1, 2), r.Bool()
+		var s2 g.ReportingSimulator
+		var rec2 *g.StateRecorder
 		setup := func() {
 			s, err = g.NewReportingSimulator(bc.config())
 			if err != nil {
@@ -188,6 +195,34 @@ func runC15(c *Ctx) {
 				if e := s.SpawnWarrior(i, g.Address(w.Off)); e != nil {
 					err = e
 					return
+				}
+			}
+			if twin {
+				// a second, identical simulator whose ONLY listener is a state recorder that also records reads;
+				// read recording is switched on before or after the recorder is attached
+				s2, err = g.NewReportingSimulator(bc.config())
+				if err != nil {
+					return
+				}
+				rec2 = g.NewStateRecorder(s2)
+				if twinLate {
+					s2.AddReporter(rec2)
+					rec2.SetRecordRead(true)
+				} else {
+					rec2.SetRecordRead(true)
+					s2.AddReporter(rec2)
+				}
+				for _, w := range bc.Warriors {
+					if _, e := s2.AddWarrior(&g.WarriorData{Name: "w", Code: toGCode(w.Code), Start: w.Start}); e != nil {
+						err = e
+						return
+					}
+				}
+				for i, w := range bc.Warriors {
+					if e := s2.SpawnWarrior(i, g.Address(w.Off)); e != nil {
+						err = e
+						return
+					}
 				}
 			}
 		}
@@ -220,8 +255,25 @@ func runC15(c *Ctx) {
 		viol := func(sig, d string) {
 			c.Violate("C15:"+sig, d, bc.describe())
 		}
+		var mineR []cellState // fold of the real stream with read reports included
+		if twin {
+			mineR = make([]cellState, m)
+			for i := range mineR {
+				mineR[i] = cellState{g.CoreEmpty, -1}
+			}
+		}
 		checkRecorder := func(when string) bool {
-			foldStream(mine, sm.all, m, lengths)
+			foldStream(mine, sm.all, m, lengths, false)
+			if twin {
+				foldStream(mineR, sm.all, m, lengths, true)
+				for a := 0; a < m; a++ {
+					if k, o := rec2.GetMemState(g.Address(a)); k != mineR[a].kind || o != mineR[a].owner {
+						viol("lone-read-recorder-vs-stream", fmt.Sprintf("%s: a state recorder with read recording on, the only listener of an identical simulator, shows address %d as (state %d, warrior %d); the last report naming it (reads included) means (state %d, warrior %d)", when, a, k, o, mineR[a].kind, mineR[a].owner))
+						return false
+					}
+				}
+				c.Inc("lone_read_recorder_comparisons")
+			}
 			sm.all = sm.all[:0]
 			for a := 0; a < m; a++ {
 				k, o := rec.GetMemState(g.Address(a))
@@ -254,7 +306,12 @@ func runC15(c *Ctx) {
 			if cycles == resetAt {
 				// Reset in the middle: recorder must show every address as empty, then respawn elsewhere
 				ref.Reset()
-				if p, msg := try(func() { s.Reset() }); p {
+				if p, msg := try(func() {
+					s.Reset()
+					if twin {
+						s2.Reset()
+					}
+				}); p {
 					viol("panic:reset:"+panicSite(msg), msg)
 					return
 				}
@@ -273,6 +330,9 @@ func runC15(c *Ctx) {
 						viol("respawn", e.Error())
 						return
 					}
+					if twin {
+						s2.SpawnWarrior(i, g.Address(w.Off))
+					}
 					for j := range w.Code {
 						refst[(w.Off+j)%m] = refCell{owner: i, kinds: map[g.CoreState]bool{g.CoreWritten: true}}
 					}
@@ -287,7 +347,12 @@ func runC15(c *Ctx) {
 			traces, pres = traces[:0], pres[:0]
 			sm.tasks = sm.tasks[:0]
 			ref.RunCycle()
-			if p, msg := try(func() { s.RunCycle() }); p {
+			if p, msg := try(func() {
+				s.RunCycle()
+				if twin {
+					s2.RunCycle()
+				}
+			}); p {
 				viol("panic:"+panicSite(msg), msg)
 				return
 			}
